@@ -79,6 +79,8 @@ fn small_ods() -> Vec<u8> {
     let rows = vec![
         ods::ORow { cells: vec![(ods::OCell::new(ods::OVal::StrContent("a  b\nc".into(), ods::SpaceMode::TextS, false)), 1), (f("1"), 2), (ods::OCell::empty(), 1020)], repeat: 1 },
         ods::ORow { cells: vec![(ods::OCell::empty(), 1)], repeat: 2 },
+        // a row ending in a run of blank covered cells (the tail of a merged region)
+        ods::ORow { cells: vec![(f("3"), 1), ({ let mut c = ods::OCell::empty(); c.covered = true; c }, 7)], repeat: 1 },
         ods::ORow { cells: vec![(ods::OCell::empty(), 1), (fc, 1), (ods::OCell::new(ods::OVal::Bool(true)), 1), (ods::OCell::new(ods::OVal::Date("2021-01-01".into())), 1)], repeat: 2 },
         ods::ORow { cells: vec![(ods::OCell::empty(), 1024)], repeat: 1_048_571 },
     ];
@@ -476,7 +478,10 @@ pub fn check(rep: &Report) {
                 else if !site.starts_with("src/") { match frames.first() { Some(c) => format!("panic @ {site} <- {c}"), None => format!("panic @ {site}") } }
                 else { format!("panic @ {site}") }
             }
-            "alloc" => format!("alloc-blowup @ {}", frames.first().cloned().unwrap_or_else(|| format!("{fmt} (no calamine frame)"))),
+            // in a text part the site is qualified by the element / attribute the fault sits in: the same allocation site can be
+            // reached from counts that are meant to expand (a repeated cell with a value) and from ones that are not
+            "alloc" => format!("alloc-blowup @ {}{}", frames.first().cloned().unwrap_or_else(|| format!("{fmt} (no calamine frame)")),
+                xml_context(&sd[c.seed as usize].targets[c.target as usize].bytes, c.a.off as usize).map(|x| format!(" [in {x}]")).unwrap_or_default()),
             "hang" => format!("hang @ {fmt} {site} / {}", sd[c.seed as usize].targets[c.target as usize].label.split(' ').take(2).collect::<Vec<_>>().join(" ")),
             _ => format!("abort @ {fmt} {site}"),
         };
@@ -502,6 +507,24 @@ pub fn check(rep: &Report) {
     rep.extra("entry_points", json!(STAGES));
     for k in [n / 7, n / 2, n - 1] { let c = cases[k]; let s = &sd[c.seed as usize]; rep.sample(json!({"seed": s.name, "target": s.targets[c.target as usize].label, "offset": c.a.off, "op": OPS[c.a.op as usize]})); }
     rep.exhaustive(true);
+}
+
+/// `<element attribute>` around offset `off` of an XML part (None for binary parts)
+fn xml_context(b: &[u8], off: usize) -> Option<String> {
+    if !b.starts_with(b"<?xml") && !b.starts_with(b"<") { return None; }
+    let off = off.min(b.len().saturating_sub(1));
+    let lt = b[..=off].iter().rposition(|c| *c == b'<')?;
+    let gt = b[lt..].iter().position(|c| *c == b'>').map(|p| lt + p).unwrap_or(b.len());
+    let ns = if b.get(lt + 1) == Some(&b'/') { lt + 2 } else { lt + 1 };
+    let name_end = b[ns..].iter().position(|c| c.is_ascii_whitespace() || *c == b'>' || *c == b'/').map(|p| ns + p).unwrap_or(b.len());
+    let elem = format!("{}{}", if ns == lt + 2 { "/" } else { "" }, String::from_utf8_lossy(&b[ns..name_end]));
+    if off > gt { return Some(format!("text of {}", elem)); }
+    // attribute: the name before the nearest =" at or before off
+    let eq = b[lt..=off].windows(2).rposition(|w| w == b"=\"").map(|p| lt + p);
+    match eq {
+        Some(e) if e > name_end => { let st = b[..e].iter().rposition(|c| c.is_ascii_whitespace()).map(|p| p + 1).unwrap_or(lt); Some(format!("{} {}", elem, String::from_utf8_lossy(&b[st..e]))) }
+        _ => Some(elem),
+    }
 }
 
 pub fn replay(path: &str) -> i32 {
